@@ -265,6 +265,14 @@ func (c *Check) Broken(format string, a ...any) {
 	c.mu.Unlock()
 }
 
+// Out is where evidence and replay files go (default Root()).
+func Out() string {
+	if r := os.Getenv("VERIF_OUT"); r != "" {
+		return r
+	}
+	return Root()
+}
+
 // Parallel runs f(i) for i in [0,n) on all cores.
 func Parallel(n int, f func(i int)) {
 	w := runtime.GOMAXPROCS(0)
@@ -359,7 +367,7 @@ func (c *Check) Finish(rule string, assumptions []string, extra map[string]any) 
 		nviol++
 		exit = 1
 		h := sha256.Sum256([]byte(k + "\x00" + v.CaseID))
-		rp := filepath.Join(Root(), "replays", fmt.Sprintf("%s-%x.json", c.ID, h[:6]))
+		rp := filepath.Join(Out(), "replays", fmt.Sprintf("%s-%x.json", c.ID, h[:6]))
 		_ = os.MkdirAll(filepath.Dir(rp), 0o755)
 		rb, _ := json.MarshalIndent(map[string]any{
 			"property": c.ID, "tier": c.Tier, "seed": c.Seed, "key": k, "case_id": v.CaseID,
@@ -380,8 +388,12 @@ func (c *Check) Finish(rule string, assumptions []string, extra map[string]any) 
 	}
 	if c.Only == "" {
 		b, _ := json.MarshalIndent(ev, "", " ")
-		_ = os.MkdirAll(filepath.Join(Root(), "evidence"), 0o755)
-		if err := os.WriteFile(filepath.Join(Root(), "evidence", c.ID+".json"), b, 0o644); err != nil {
+		_ = os.MkdirAll(filepath.Join(Out(), "evidence"), 0o755)
+		name := c.ID + ".json"
+		if sfx := os.Getenv("VERIF_EVIDENCE_SUFFIX"); sfx != "" {
+			name = c.ID + "." + sfx + ".part"
+		}
+		if err := os.WriteFile(filepath.Join(Out(), "evidence", name), b, 0o644); err != nil {
 			fmt.Println("HARNESS-ERROR: cannot write evidence:", err)
 			os.Exit(2)
 		}
